@@ -66,10 +66,15 @@ package simplewlru
 //@   requires 0 <= j && !vis[ks[unbox(vals[a[j]], "*entry")]] && forall(i, 0, n, i != j ==> ks[unbox(vals[a[i]], "*entry")] != ks[unbox(vals[a[j]], "*entry")])
 //@   ensures  wsumV(a, vals, ks, w, vis[ks[unbox(vals[a[j]], "*entry")] := true], n) == wsumV(a, vals, ks, w, vis, n) - ite(j < n, w[unbox(vals[a[j]], "*entry")], 0)
 //@ // representation invariant: items and the eviction list hold the same entries, each under its own key
-//@ inv Cache lruinv(c): c != nil && c.evictList != nil && c.items != nil && lwf(c.evictList) && len(c.items) == llen[c.evictList] &&
+//@ inv Cache lruinv(c) abstract: c != nil && c.evictList != nil && c.items != nil && lwf(c.evictList) && len(c.items) == llen[c.evictList] &&
 //@   forall(k interface{}, has(c.items, k) ==> inlist(c, c.items[k]) && typeis(c.items[k].Value, "*entry") && ent(c.items[k]) != nil && ent(c.items[k]).key == k) &&
 //@   forall(i, 0, llen[c.evictList], typeis(lel[c.evictList][i].Value, "*entry") && ent(lel[c.evictList][i]) != nil && has(c.items, ent(lel[c.evictList][i]).key) && c.items[ent(lel[c.evictList][i]).key] == lel[c.evictList][i] && ent(lel[c.evictList][i]).weight >= 0) &&
 //@   c.weight == cwsum(c)
+//@ // what clients outside this package may use of the (for them abstract) invariant; lruinv_exports proves it
+//@ invexports lruinv: c != nil && c.items != nil && c.weight == cwsum(c) && c.weight >= 0 && (len(c.items) == 0 ==> c.weight == 0)
+//@ lemma lruinv_exports(c *Cache) { use wsum_nonneg(lel[c.evictList], heapof(all(list.Element).Value), heapof(all(entry).weight), llen[c.evictList]) }
+//@   requires lruinv(c)
+//@   ensures  c != nil && c.items != nil && c.weight == cwsum(c) && c.weight >= 0 && (len(c.items) == 0 ==> c.weight == 0)
 //@
 //@ func (*Cache).Contains
 //@   requires lruinv(c)
